@@ -434,6 +434,32 @@ theorem C10_build_values_partial (d : DynPat) (isPrefix : Bool) (hwf : DynWF d) 
       subst hpath
       simpa using buildSegs_lang hl' []
 
+/-- **C10_build_values_separated**: for the usual slash-separated full patterns (every dynamic
+segment excludes `/` and is followed by `/…` or the end — e.g. only default segments between
+slashes) the extra hypothesis holds: building a path from values and capturing it again gives
+exactly those values back. -/
+theorem C10_build_values_separated (d : DynPat) (isPrefix : Bool) (hwf : DynWF d)
+    (hsep : Separated d.segs) (heos : d.suffix = .eos) (m : List Char)
+    (vals : List (Name × List Char)) (hl : LangSegs d.segs m vals) (hlen : blen m < 65536) :
+    ∃ st, (ResourceDef.mk isPrefix (.dynamic d) d.segs).captureMatchInfo (fresh m) = .matched st ∧
+      st.values = vals.map (fun v => (v.1, some v.2)) := by
+  obtain ⟨st, vals', hcap, hv, huniq, _⟩ := C10_build_values_partial d isPrefix hwf m vals hl hlen
+  refine ⟨st, hcap, ?_⟩
+  rw [hv, huniq ?_]
+  intro n' v' hdyn
+  obtain ⟨m', rest, hpath, hl', hsfx, _⟩ := hdyn
+  rw [heos] at hsfx
+  simp only [SuffixOk] at hsfx
+  subst hsfx
+  simp only [List.append_nil] at hpath
+  subst hpath
+  exact langSegs_unique hsep hl' hl
+
+example : Separated [.const ['/', 'u', '/'], .var ['i', 'd'] defaultRe, .const ['/', 'p', '/'],
+    .var ['t'] defaultRe] :=
+  ⟨fun w h => ((C10_default_segment w).mp h).2, Or.inr ⟨_, _, rfl⟩,
+    fun w h => ((C10_default_segment w).mp h).2, Or.inl rfl, trivial⟩
+
 /-- the pattern `/{a}{b}` as `parse` produces it -/
 def ambiguousPat : DynPat :=
   ⟨[.const ['/'], .var ['a'] defaultRe, .const [], .var ['b'] defaultRe], .eos⟩
